@@ -41,6 +41,7 @@ def cfgOfArgs (kv : List (String × String)) : Cfg :=
     boundsCompressedSize := triArg kv "boundsCompressedSize" false
     boundsDecodedLen := triArg kv "boundsDecodedLen" false
     parseConsumesAll := triArg kv "parseConsumesAll" false
+    shortPayloadIsEOF := triArg kv "shortPayloadIsEOF" false
     v2Fallback := triArg kv "v2Fallback" true
     rejectsLongName := triArg kv "rejectsLongName" false }
 
@@ -192,6 +193,41 @@ def step (d : DS) (line : String) : DS × String :=
       | .error e => s!"cidx err:{e.name}"
       | .ok (m, _) => s!"cidx {indexDigest m}{indexListing m}"
     (d, line ++ specFlag d r)
+  | ["wb", n, kl, dl, st] =>
+    match n.toNat?, kl.toNat?, dl.toNat?, st.toNat? with
+    | some n, some kl, some dl, some st =>
+      -- `WriteEntries`: validate the whole batch first, then add entry by entry (flushing as needed)
+      if d.st.sess.isNone then (d, "rej closed") else
+      let es := (List.range n).map fun i => (⟨1, genBytes kl (st + i), genBytes dl (st + i)⟩ : Entry)
+      match es.find? (fun e => !accepts d.cfg e) with
+      | some e => (d, if e.key.isEmpty then "rej emptykey" else "rej longkey")
+      | none => (es.foldl (fun d e => (doOp d (.write e)).1) d, "ok")
+    | _, _, _, _ => (d, "bad-op")
+  | ["wk", n, dl, st] =>
+    match n.toNat?, dl.toNat?, st.toNat? with
+    | some n, some dl, some st =>
+      let (d', okc, last) := (List.range n).foldl (fun (acc : DS × Nat × String) i =>
+        let (d, okc, last) := acc
+        let (d', r) := doOp d (.write ⟨1, le 4 (st + i), genBytes dl (st + i)⟩)
+        if r == .ok then (d', okc + 1, last) else (d', okc, replyStr r)) (d, 0, "ok")
+      (d', if okc == n then "ok" else s!"{last} after={okc}")
+    | _, _, _ => (d, "bad-op")
+  | ["stalehdr"] =>
+    if d.st.sess.isSome then (d, "rej open")
+    else if !d.fileExists then (d, "rej header")
+    else ({ d with st := zeroCounts d.st }, "ok")
+  | ["compact"] =>
+    if d.st.sess.isSome then (d, "rej open")
+    else if !d.fileExists then (d, "rej header")
+    else
+      let live := specOf (flushedOf d)
+      let (st', r) := compactSt d.cfg idCodec crc0 d.bs 0 d.st
+      match r with
+      | .ok =>
+        -- the Spec state is unchanged; restart the acknowledged history from the live set so that
+        -- header counters and history length stay comparable
+        ({ d with st := st', accRev := live.map (fun p => (⟨opInsert, p.1, p.2⟩ : Entry)) }, "ok")
+      | _ => (d, "rej header")
   | ["flush"] => let (d', r) := doOp d .flush; (d', replyStr r)
   | ["sync"] => let (d', r) := doOp d .sync; (d', replyStr r)
   | ["close"] => let (d', r) := doOp d .close; (d', replyStr r)
